@@ -1,8 +1,9 @@
 #!/bin/sh
-# Offline setup: build the rustc driver and warm the fact cache (dependency check + first extraction).
+# Offline setup: build the rustc driver and warm the fact caches (dependency check + first extraction; derive fixture).
 set -e
 cd "$(dirname "$0")"
 export CARGO_NET_OFFLINE=true
 (cd driver && cargo +nightly build --offline 2>&1 | tail -2)
 python3 vrules/facts.py > /dev/null
+python3 -m vrules.fixture NONE_MATCHES > /dev/null
 echo "setup ok"
